@@ -1,6 +1,7 @@
 import EaselModel.Miniapps.Selectn
 import EaselModel.Miniapps.Fasta
 import EaselModel.Random.Choose
+import EaselModel.Shuffle.WinParams
 /-! # C13 — esl-shuffle (`-m`, `-k`, `-w`, `-r`, `-N`, `-L`, `-G`) and `easel downsample`, driven by the C09 generator models
 
 Every shuffler is a sequence of swaps whose positions come from an arbitrary roll function with state `σ`
@@ -45,11 +46,14 @@ def cshuffleKmers (roll : σ → Nat → Nat × σ) (K : Nat) (x : List α) (s :
   let r := shuffleLoop roll ws.length ws.toArray s
   (x.take (x.length % K) ++ r.1.toList.flatten, r.2)
 
-/-- inner loop of `esl_rsq_CShuffleWindows`: `for (j = hi; j > i; j--) { k = i + Roll(j-i); swap(k, j); }` -/
+/-- inner loop of `esl_rsq_CShuffleWindows`: `for (j = hi; j > i; j--) { k = i + Roll(j-i+cWinD); swap(k, j); }`.
+    The roll range `j-i+cWinD` is NOT hard-coded: `EaselModel.Shuffle.cWinD` is regenerated from `esl_randomseq.c` of the
+    working tree on every run (`Shuffle/WinParams.lean`, shared with C18), so the predicted `esl-shuffle -w` text follows
+    the tree (`Roll(j-i)` on the pinned tree, `Roll(j-i+1)` once the range is corrected). -/
 def windowInner (roll : σ → Nat → Nat × σ) (i : Nat) : Nat → Array α → σ → Array α × σ
   | 0, a, s => (a, s)
   | d + 1, a, s =>          -- j = i + d + 1
-    let rs := roll s (d + 1)
+    let rs := roll s (d + 1 + EaselModel.Shuffle.cWinD)
     windowInner roll i d (swapAt a (i + rs.1) (i + d + 1)) rs.2
 
 def windowOuter (roll : σ → Nat → Nat × σ) (w L : Nat) : Nat → Nat → Array α → σ → Array α × σ
